@@ -80,11 +80,23 @@ def binomialSmall (t : Tbl) (n k : Nat) : Except Err Rat × Tbl :=
       | (.error e, t3) => (.error e, t3)
       | (.ok fnk, t3) => (.ok (((1 : Rat) / 2 + fn / fk / fnk).floor : Rat), t3)
 
-/-- `big n k` stands for `exp(GammaLn(n+1) - GammaLn(k+1) - GammaLn(n-k+1))` (glue). -/
-def binomial (big : Nat → Nat → Rat) (t : Tbl) (n k : Int) : Except Err Rat × Tbl :=
+/-- `n > 170` (after `fix:` 3be6423): `m = min(k, n-k)`, `result = 1`, and for `i = 1..m`
+    `factor = n - m + i`, `g = gcd(factor, i)` (the Euclid loop `t = a % b; a = b; b = t` of the code is `Nat.gcd`),
+    `result = result / (i / g) * (factor / g)`. -/
+def binomProductStep (n m : Nat) (r : Rat) (j : Nat) : Rat :=
+  let i := j + 1
+  let f := n - m + i
+  let g := Nat.gcd f i
+  r / ((i / g : Nat) : Rat) * ((f / g : Nat) : Rat)
+
+def binomProduct (n k : Nat) : Rat :=
+  let m := min k (n - k)
+  (List.range m).foldl (binomProductStep n m) 1
+
+def binomial (t : Tbl) (n k : Int) : Except Err Rat × Tbl :=
   if k < 0 ∨ n < 0 then (.error .diag, t)
   else if n < k then (.ok 0, t)
-  else if n > 170 then (.ok (((1 : Rat) / 2 + big n.toNat k.toNat).floor : Rat), t)
+  else if n > 170 then (.ok (binomProduct n.toNat k.toNat), t)
   else binomialSmall t n.toNat k.toNat
 
 /-! ## GammaLn: Lanczos -/
@@ -105,6 +117,11 @@ def lanczosSum (x : Rat) : Rat :=
 
 /-- the value `GammaLn` returns for `x > 0`, given the Lanczos sum `s` -/
 def gammaLnGlue (T : Transc) (x s : Rat) : Rat :=
+  let tmp := x + 671 / 128
+  ((x + 1 / 2) * T.log tmp - tmp) + (T.log (sqrt2pi * s) - T.log x)
+
+/-- the form before `fix:` 61f965b: `log(c * sum / x)` (the quotient overflowed in double for `x < 4.6e-307`) -/
+def gammaLnGlueQuot (T : Transc) (x s : Rat) : Rat :=
   let tmp := x + 671 / 128
   ((x + 1 / 2) * T.log tmp - tmp) + T.log (sqrt2pi * s / x)
 
@@ -354,6 +371,7 @@ inductive InvBranch where
 
 def invBranch (p a : Rat) : Except Err InvBranch :=
   if a ≤ 0 then .error .diag
+  else if p < 0 ∨ p > 1 then .error .diag      -- `fix:` d65f15f: p is not a probability
   else if p ≥ 1 then .ok .top
   else if p ≤ 0 then .ok .bottom
   else .ok .iterate
@@ -369,6 +387,7 @@ def invGammaP (T : Transc) (P : Rat → Rat → Except Err Rat) (p a : Rat) : Ex
     | .ok gln => halley T P p a gln 12 (invGuess T p a)
 
 def invGammaQ (T : Transc) (P : Rat → Rat → Except Err Rat) (q a : Rat) : Except Err Rat :=
-  invGammaP T P (1 - q) a
+  if q < 0 ∨ q > 1 then .error .diag             -- `fix:` d65f15f: tested on q itself (1 - q rounds)
+  else invGammaP T P (1 - q) a
 
 end Lp.C06
